@@ -105,6 +105,8 @@ package qbft
 
 //@ func (c *Consensus) handle
 //@ props C05 C02 C03 C01 C14
+// The instance of a live duty is never removed here (only the expiry loop in Start deletes instances).
+//@ ensures ncalls(c.deleteInstanceIO) == 0
 //@ nopanic
 //@ safe nil
 //@ requires len(c.pubkeys) <= 1048576
@@ -172,6 +174,8 @@ package qbft
 // of that very value, and the consensus run that is started is the one of this duty.
 //@ func (c *Consensus) propose
 //@ props C02 C03
+// The instance of a live duty is never removed here (only the expiry loop in Start deletes instances).
+//@ ensures ncalls(c.deleteInstanceIO) == 0
 //@ requires len(c.peers) <= 4096
 //@ callreq c.getInstanceIO: a1 == duty
 //@ callreq send inst.ValueCh: ncalls(inst.MarkProposed) == 1 && a1.Value == value && res(1, hashProto(value)) == nil && a1.Hash == res(0, hashProto(value))
@@ -182,6 +186,8 @@ package qbft
 
 //@ func (c *Consensus) Participate
 //@ props C02 C03
+// The instance of a live duty is never removed here (only the expiry loop in Start deletes instances).
+//@ ensures ncalls(c.deleteInstanceIO) == 0
 //@ requires len(c.peers) <= 4096
 //@ callreq c.getInstanceIO: a1 == duty
 //@ callreq c.runInstance: a2 == duty && ncalls(inst.MarkParticipated) == 1
@@ -192,6 +198,8 @@ package qbft
 // exempt duties never start a run.
 //@ func (c *Consensus) runInstance
 //@ props C02 C03 C04
+// The instance of a live duty is never removed here (only the expiry loop in Start deletes instances).
+//@ ensures ncalls(c.deleteInstanceIO) == 0
 //@ requires len(c.peers) <= 4096
 //@ callreq c.getInstanceIO: a1 == duty
 //@ callreq c.deadliner.Add: a1 == duty
@@ -246,3 +254,33 @@ package qbft
 //@ ensures r1 == nil ==> has(t.values, hash) && r0 == t.values[hash]
 //@ ensures ncalls(anypb.New) <= 1
 
+
+// ---- instance life cycle: one instance per duty from its first use until the duty's deadline -------------------------
+// "Decide at most once per duty" rests on one qbft.Run per duty, which rests on the instance (with its Running / Proposed /
+// Participated flags) staying in the map until the deadliner reports the duty: the lookups never replace or remove an
+// existing instance, only the expiry loop deletes, and it deletes exactly the expired duty's entry.
+//@ func (c *Consensus) getInstanceIO
+//@ props C02 C03
+//@ atomic
+//@ ensures has(old(c.mutable.instances), duty) ==> result == old(c.mutable.instances)[duty]
+//@ ensures has(c.mutable.instances, duty) && c.mutable.instances[duty] == result
+//@ ensures all(d2, core.Duty, d2 != duty ==> has(c.mutable.instances, d2) == has(old(c.mutable.instances), d2) && c.mutable.instances[d2] == old(c.mutable.instances)[d2])
+
+//@ func (c *Consensus) getRecvBuffer
+//@ props C02 C03
+//@ atomic
+//@ ensures has(old(c.mutable.instances), duty) ==> c.mutable.instances[duty] == old(c.mutable.instances)[duty]
+//@ ensures has(c.mutable.instances, duty) && result == c.mutable.instances[duty].RecvBuffer
+//@ ensures all(d2, core.Duty, d2 != duty ==> has(c.mutable.instances, d2) == has(old(c.mutable.instances), d2) && c.mutable.instances[d2] == old(c.mutable.instances)[d2])
+
+//@ func (c *Consensus) deleteInstanceIO
+//@ props C02 C03
+//@ atomic
+//@ ensures !has(c.mutable.instances, duty)
+//@ ensures all(d2, core.Duty, d2 != duty ==> has(c.mutable.instances, d2) == has(old(c.mutable.instances), d2) && c.mutable.instances[d2] == old(c.mutable.instances)[d2])
+
+//@ func (c *Consensus) Start$2
+//@ props C02 C03
+//@ callreq c.deleteInstanceIO: a1 == duty
+//@ ensures ncalls(c.getInstanceIO) == 0
+//@ loop 1 invariant ncalls(c.getInstanceIO) == 0
